@@ -833,7 +833,11 @@ func (t *translator) trCall(x *ast.CallExpr, e *env) (val, error) {
 		if err != nil {
 			return val{}, err
 		}
-		return t.inline(x, ctrl, md, &recv, args, e)
+		v, err := t.inline(x, ctrl, md, &recv, args, e)
+		if err != nil {
+			return val{}, fmt.Errorf("%v [while inlining method %s, which is neither in the statement grammar nor of the recognised lazily-caching duration-accessor shape `if n.cache == 0 { d, err := time.ParseDuration(n.F); if err != nil { return 0 }; n.cache = d }; return n.cache`]", err, fn.Sel.Name)
+		}
+		return v, nil
 	}
 	return val{}, t.errAt(x, "call outside the rule grammar")
 }
